@@ -45,6 +45,7 @@ MIN_REACH = {
     "harvester_file_checked": {"quick": 40, "thorough": 400},
     "partial_write_states": {"quick": 100, "thorough": 1000},
     "syscall_crash_points": {"quick": 8, "thorough": 50},
+    "recoveries_that_resowed_through_the_restored_crop_of_a_farmer_with_resources": {"quick": 20, "thorough": 150},
 }
 TIME_BUDGET = {"quick": 500, "thorough": 3400}
 CASE_TIMEOUT = {"quick": 400, "thorough": 1200}
@@ -69,7 +70,9 @@ def cases(ctx):
             nb = 3 if (idx % 3 == 2 or (victim in ("sow", "resow") and farmer in ("raw", "harvester"))) else None
             yield {"farmer": farmer, "victim": victim, "n": 5, "bs": 2, "nb": nb, "shuffle": [False, True][idx % 2],
                    "engine": "joblib" if (farmer == "harvester" and victim in ("reap", "grow_missing", "resow")) else None,
-                   "grown": [1] if victim.startswith("grow") else [], "idx": idx, "depth2": 0, "part": [part, P]}
+                   "grown": [1] if victim.startswith("grow") else [], "idx": idx, "depth2": 0, "part": [part, P],
+                   # (some farmers supply a constant argument that is not recorded with the data)
+                   "res": farmer != "raw" and idx % 4 in (1, 2)}
         idx += 1
     for farmer, victim in base:
         if victim in ("grow_subset", "grow_missing", "reap"):
@@ -99,7 +102,8 @@ def cases(ctx):
                 for part in range(2):
                     yield {"farmer": farmer, "victim": victim, "n": n, "bs": bs, "nb": nb, "shuffle": sh,
                            "engine": "joblib" if (farmer == "harvester" and rep % 2) else None,
-                           "grown": grown, "idx": idx, "depth2": 3 if rep < 3 else 0, "part": [part, 2]}
+                           "grown": grown, "idx": idx, "depth2": 3 if rep < 3 else 0, "part": [part, 2],
+                           "res": farmer != "raw" and rep % 3 == 1}
                 idx += 1
 
 
@@ -111,6 +115,11 @@ def _pkind(farmer):
     return {"raw": "array:40", "runner": "multi:s,a40", "harvester": "multi:s,a40", "sampler": "float"}[farmer]
 
 
+def _res(case):
+    """Constant arguments the runner supplies without recording them (resources=), for the scenarios that have them."""
+    return {"r0": 7} if case.get("res") and case["farmer"] != "raw" else {}
+
+
 def _mk(case, root):
     """(fn, farmer object or None) for this scenario."""
     import xyzpy
@@ -118,10 +127,11 @@ def _mk(case, root):
     fn = probe.Probe(_pkind(farmer), name="cprobe")
     if farmer == "raw":
         return fn, None
+    rkw = {"resources": _res(case)} if _res(case) else {}
     if farmer == "sampler":
-        r = xyzpy.Runner(fn, "y")
+        r = xyzpy.Runner(fn, "y", **rkw)
         return fn, xyzpy.Sampler(r, data_name=os.path.join(root, "samples.pkl"), default_combos={"a": list(range(1, case["n"] + 1))})
-    r = xyzpy.Runner(fn, ["y", "z"], var_dims={"z": "t"}, var_coords={"t": T_VALS})
+    r = xyzpy.Runner(fn, ["y", "z"], var_dims={"z": "t"}, var_coords={"t": T_VALS}, **rkw)
     if farmer == "runner":
         return fn, r
     if case.get("engine") == "joblib":
@@ -231,19 +241,19 @@ def _judge_value(case, res, sampled=None):
         if sampled is not None and len(rows) != len(sampled):
             return "%d rows for %d sown samples" % (len(rows), len(sampled))
         for r in rows:
-            if refmodel.deep_eq(r["y"], probe.make(kind, {"a": r["a"]})):
+            if refmodel.deep_eq(r["y"], probe.make(kind, {"a": r["a"], **_res(case)})):
                 return "row a=%r carries y=%r" % (r["a"], r["y"])
         return None
     if sorted(res["a"].values.tolist()) != avals:
         return "coordinate a = %s" % (res["a"].values.tolist(),)
     for a in avals:
-        v = probe.make(kind, {"a": a})
+        v = probe.make(kind, {"a": a, **_res(case)})
         if refmodel.deep_eq(res.sel(a=a)["y"].values.item(), v[0]) or refmodel.deep_eq(res.sel(a=a)["z"].values, v[1]):
             return "values at a=%d are not the function's" % a
     return None
 
 
-def _harvester_file_has(root, avals, engine="h5netcdf"):
+def _harvester_file_has(root, avals, engine="h5netcdf", res=None):
     """None if the harvester's file is loadable and holds exact data at every a in avals."""
     import xyzpy
     p = os.path.join(root, "harvest.h5")
@@ -260,7 +270,7 @@ def _harvester_file_has(root, avals, engine="h5netcdf"):
     for a in avals:
         if a not in ds["a"].values.tolist():
             return "a=%d is no longer in the harvester's file" % a
-        v = probe.make(kind, {"a": a})
+        v = probe.make(kind, {"a": a, **(res or {})})
         if refmodel.deep_eq(ds.sel(a=a)["y"].values.item(), v[0]) or refmodel.deep_eq(ds.sel(a=a)["z"].values, v[1]):
             return "data at a=%d in the harvester's file changed" % a
     return None
@@ -277,7 +287,7 @@ def _naive(case, root):
         return ("raised", type(e).__name__)
     d = _judge_value(case, res, sampled)
     if d is None and case["farmer"] == "harvester":
-        d = _harvester_file_has(root, _earlier(case) + list(range(1, case["n"] + 1)), case.get("engine") or "h5netcdf")
+        d = _harvester_file_has(root, _earlier(case) + list(range(1, case["n"] + 1)), case.get("engine") or "h5netcdf", _res(case))
     return ("exact", None) if d is None else ("wrong", d)
 
 
@@ -331,7 +341,20 @@ def _recover(case, root):
     try:
         with quiet():
             if case["victim"] in ("sow", "resow") or _needs_resow(case, root):
-                _sow(case, root)
+                restored = None
+                if case.get("res") and case["farmer"] in ("runner", "harvester"):
+                    # the re-sow is done through the crop as found on disk (name and directory only), when it can be
+                    # restored at all; else by running the sow script again
+                    try:
+                        restored = _load_crop(root)
+                        if restored.farmer is None:
+                            restored = None
+                    except Exception:
+                        restored = None
+                if restored is not None:
+                    restored.sow_combos({"a": list(range(1, case["n"] + 1))}, shuffle=case["shuffle"], verbosity=0)
+                else:
+                    _sow(case, root)
             crop = _load_crop(root)
             crop.check_bad()
             crop.grow_missing()
@@ -342,10 +365,10 @@ def _recover(case, root):
         return ("raised", "%s: %s | %s" % (type(e).__name__, str(e)[:200], traceback.format_exc(limit=-3)[-600:]))
     d = _judge_value(case, res, sampled)
     if d is None and case["farmer"] == "harvester":
-        d = _harvester_file_has(root, _earlier(case) + list(range(1, case["n"] + 1)), case.get("engine") or "h5netcdf")
+        d = _harvester_file_has(root, _earlier(case) + list(range(1, case["n"] + 1)), case.get("engine") or "h5netcdf", _res(case))
     if d is None and os.path.exists(cropkit.crop_dir(root, NAME)):
         d = "crop directory still exists after the recovered reap"
-    return ("exact", None) if d is None else ("wrong", d)
+    return ("exact", "restored-resow" if "restored" in dir() and restored is not None else None) if d is None else ("wrong", d)
 
 
 def setup(ctx):
@@ -445,7 +468,7 @@ def run_strace_case(ctx, case):
         state = crash.snap(root)
         bad = []
         if case["farmer"] == "harvester":
-            st3, d3 = crash.run_forked(lambda: _harvester_file_has(root, _earlier(case), case.get("engine") or "h5netcdf"))
+            st3, d3 = crash.run_forked(lambda: _harvester_file_has(root, _earlier(case), case.get("engine") or "h5netcdf", _res(case)))
             ctx.count("harvester_file_checked")
             if st3 != "ok" or d3 is not None:
                 bad.append(("harvester-data-survives", "after SIGKILL at %s #%d on the data file: %s" % (name, k, d3 if st3 == "ok" else (st3, d3))))
@@ -510,7 +533,7 @@ def run_case(ctx, case):
         bad = []
         # (3) harvester data survives the crash itself
         if case["farmer"] == "harvester":
-            st3, d3 = crash.run_forked(lambda: _harvester_file_has(root, _earlier(case), case.get("engine") or "h5netcdf"))
+            st3, d3 = crash.run_forked(lambda: _harvester_file_has(root, _earlier(case), case.get("engine") or "h5netcdf", _res(case)))
             ctx.count("harvester_file_checked")
             if st3 != "ok" or d3 is not None:
                 bad.append(("harvester-data-survives", "after a kill before %s: %s" % (evname, d3 if st3 == "ok" else (st3, d3))))
@@ -534,6 +557,8 @@ def run_case(ctx, case):
             bad.append(("recovery", "killed before %s; documented recovery %s: %s" % (evname, r2[0], r2[1])))
         else:
             ctx.count("recoveries_exact")
+            if r2[1] == "restored-resow":
+                ctx.count("recoveries_that_resowed_through_the_restored_crop_of_a_farmer_with_resources")
         # (2b) workers that were already queued when the sow was killed grow whatever complete batch files they find,
         # THEN the documented recovery runs: it must still reach the uninterrupted results
         if case["victim"] in ("sow", "resow") and not bad:
